@@ -126,7 +126,7 @@ Definition sites_match (gen : list (string * string * string)) : bool :=
   list_eqb triple_eqb (map site_key cfg_sites_ref) gen && forallb site_ok cfg_sites_ref.
 
 Definition count_fork (fork : string) : nat :=
-  length (filter (fun s => String.eqb (snd s) fork) cfg_sites_ref).
+  List.length (filter (fun s => String.eqb (snd s) fork) cfg_sites_ref).
 
 (* ------------------------------------------------------------------------------------------------ *)
 (* Every assignment / read of Vm.fiber and Vm.unsafe_fiber (vm.rs), in the translator's order
@@ -193,18 +193,20 @@ Inductive fop : Type :=
 | OLoad (f : N)                        (* load_fiber(f, _)  - Fiber.call *)
 | OUnload.                             (* unload_fiber(_)   - Fiber.yield / return from a fiber *)
 
-(* load_fiber (vm.rs:470-514) *)
+(* load_fiber (vm.rs:470-514), the part before the switch:
+   if self.fiber.is_some() { ...; self.active_fiber_mut().current_frame_mut().unwrap().ip = self.ip } *)
+Definition load_pre (cell : bool) (s : fstate) : option fres :=
+  match fiber s with
+  | Some _ => match active cell s with inl _ => None | inr r => Some r end
+  | None => None
+  end.
+
 Definition load_fiber (cell : bool) (f : N) (s : fstate) : fres * fstate :=
   (* "Cannot call a fiber that has already been called." (the has_finished test reads only f itself) *)
   match caller_of (callers s) f with
   | Some _ => (FErr "Cannot call a fiber that has already been called.", s)
   | None =>
-    (* if self.fiber.is_some() { ...; self.active_fiber_mut().current_frame_mut().unwrap().ip = self.ip } *)
-    let pre := match fiber s with
-               | Some _ => match active cell s with inl _ => None | inr r => Some r end
-               | None => None
-               end in
-    match pre with
+    match load_pre cell s with
     | Some r => (r, s)
     | None =>
       (* self.unsafe_fiber = ( *fiber).as_ptr();  let caller = self.fiber.replace(fiber.as_root()); *)
